@@ -55,4 +55,7 @@ func init() {
 	// ---------------- C19.R13
 	mut("C19", "loop variables are not declared as locals", "arc/go/compiler/compiler.go",
 		"			symbol.KindOutput, symbol.KindLoopVariable:", "			symbol.KindOutput:", "C19.R13.locals")
+
+	mut("C19", "a stored zero counts as an uninitialised stateful variable", "arc/go/stl/stateful/stateful.go",
+		"			if value, ok := inner[varID]; ok {\n				return uint32(value)\n", "			if value := inner[varID]; value != 0 {\n				return uint32(value)\n", "C19.R14.presence")
 }
